@@ -177,14 +177,12 @@ Proof.
     rewrite Hq in Hp. eapply blocked_mono; [exact OL|]. eapply G2; eauto.
 Qed.
 
-Lemma Rg_frame e s s' o o' : Rg s o -> frM s s' -> ole e o o' -> Rg s' o'.
+Lemma Rg_insts e s s' o o' : Rg s o -> ole e o o' ->
+  (forall j, match get j (insts s) with
+             | Some x => exists x', get j (insts s') = Some x' /\ cf x' = cf x /\ pc_ok x x'
+             | None => get j (insts s') = None end) -> Rg s' o'.
 Proof.
-  intros G F OL. pose proof G as [G1 G2].
-  assert (Ho : forall j, match get j (insts s) with
-                        | Some x => exists x', get j (insts s') = Some x' /\ cf x' = cf x /\ pc_ok x x'
-                        | None => get j (insts s') = None end).
-  { intros j. pose proof (fm_insts _ _ F j) as A. destruct (get j (insts s)) as [x|]; [|exact A].
-    destruct A as (x' & ? & ? & ? & ? & ?). eauto. }
+  intros G OL Ho. pose proof G as [G1 G2].
   constructor.
   - intros j x' xo' l Hx' Hxo' Hr k c Hin Hnl.
     specialize (Ho j). destruct (get j (insts s)) as [x|] eqn:Ex; [|congruence].
@@ -201,6 +199,14 @@ Proof.
     rewrite Hq in Hp. eapply blocked_mono; [exact OL|]. eapply G2; eauto.
 Qed.
 
+Lemma Rg_frame e s s' o o' : Rg s o -> frM s s' -> ole e o o' -> Rg s' o'.
+Proof.
+  intros G F OL. eapply Rg_insts; eauto.
+  intros j. pose proof (fm_insts _ _ F j) as A. destruct (get j (insts s)) as [x|]; [|exact A].
+  destruct A as (x' & ? & ? & ? & ? & ?). eauto.
+Qed.
+
+
 Lemma Rg_new s o o1 i n c y0 : Rg s o -> Oinv o -> get i (oi o) = None -> oi o1 = set i y0 (oi o) -> onm o1 = onm o ->
   o_idx y0 = o_cnt o ->
   Rg (s <| insts := set i (new_inst n c) (insts s) |>) o1.
@@ -215,4 +221,415 @@ Proof.
     + intros Hx Hxo Hp. specialize (OI j xo Hxo). destruct (G2 _ _ _ _ _ _ _ Hx Hxo Hp) as [(yo & A & B & C)|G].
       * left. exists yo. destruct (N.eqb_spec i j0); [congruence|auto].
       * right. intros j' yo. rewrite get_set. destruct (N.eqb i j'); [intros Q; injection Q as <-; lia|apply G].
+Qed.
+
+(* ---- the registries and the lookup state machine ---------------------------------------------------------------- *)
+Definition registered (s : sys) (k : name) : Prop := get k (running s) <> None \/ get k (donereg s) <> None.
+Definition older (o : obs) (k : name) (ix : nat) : Prop :=
+  exists j yo, get j (oi o) = Some yo /\ o_nm yo = k /\ o_idx yo < ix.
+Definition lk_fact (s : sys) (o : obs) (ix : nat) (l : lookup_st) : Prop :=
+  match l with
+  | LReg k None => older o k ix -> get k (donereg s) <> None
+  | LDone2 k None => ~ older o k ix
+  | _ => True
+  end.
+
+Record Rk (s : sys) (o : obs) (g : gst) : Prop := mkRk {
+  rk_reg : forall j yo, get j (oi o) = Some yo -> g_pending g = Some j \/ registered s (o_nm yo);
+  rk_pending : forall j, g_pending g = Some j -> exists yo, get j (oi o) = Some yo /\ S (o_idx yo) = o_cnt o;
+  rk_th : forall th i, get th (thinst s) = Some i -> get i (oi o) <> None;
+  rk_lk : forall th i xo, get th (thinst s) = Some i -> get i (oi o) = Some xo ->
+          lk_fact s o (o_idx xo) (lk (get_thread s th)) }.
+
+Lemma older_inv e o o' k ix : ole e o o' -> older o' k ix -> older o k ix.
+Proof.
+  intros OL (j & yo' & A & B & C). destruct (ole_inv _ _ _ _ _ OL A) as (yo & E & (L1 & L2 & _)).
+  exists j, yo. repeat split; congruence.
+Qed.
+
+Lemma lk_plain_fact s o ix l : lk_plain l -> lk_fact s o ix l.
+Proof. destruct l as [|k [j|]|k|k [j|]|k [j|]]; cbn; tauto. Qed.
+
+Lemma lk_fact_mono e s s' o o' ix l : ole e o o' ->
+  (forall k, get k (donereg s) <> None -> get k (donereg s') <> None) ->
+  lk_fact s o ix l -> lk_fact s' o' ix l.
+Proof.
+  intros OL Hd. destruct l as [|k [j|]|k|k [j|]|k [j|]]; cbn; auto.
+  - intros H Q. apply Hd, H. eapply older_inv; eauto.
+  - intros H Q. apply H. eapply older_inv; eauto.
+Qed.
+
+Lemma Rk_gen e s s' o o' g g' : Rk s o g -> ole e o o' ->
+  (forall j, g_pending g' = Some j -> g_pending g = Some j) ->
+  (forall j yo, g_pending g = Some j -> get j (oi o) = Some yo -> g_pending g' = Some j \/ registered s' (o_nm yo)) ->
+  (forall k, registered s k -> registered s' k) ->
+  (forall k, get k (donereg s) <> None -> get k (donereg s') <> None) ->
+  (forall th i, get th (thinst s') = Some i ->
+      (get th (thinst s) = Some i /\ lk (get_thread s' th) = lk (get_thread s th)) \/
+      (get i (oi o') <> None /\ forall xo', get i (oi o') = Some xo' -> lk_fact s' o' (o_idx xo') (lk (get_thread s' th)))) ->
+  Rk s' o' g'.
+Proof.
+  intros [K1 K2 K3 K4] OL Hp1 Hp2 Hr Hd Ht. constructor.
+  - intros j yo' H. destruct (ole_inv _ _ _ _ _ OL H) as (yo & E & (L1 & _)). rewrite L1.
+    destruct (K1 j yo E) as [Q|Q]; [eapply Hp2; eauto|right; auto].
+  - intros j Q. destruct (K2 j (Hp1 j Q)) as (yo & A & B). destruct (ole_oi _ _ _ OL j yo A) as (yo' & E & (_ & L2 & _)).
+    exists yo'. split; [exact E|]. rewrite L2, (ole_cnt _ _ _ OL). exact B.
+  - intros th i Q. destruct (Ht th i Q) as [[Q1 _]|[Q1 _]]; [|exact Q1].
+    specialize (K3 th i Q1). destruct (get i (oi o)) as [xo|] eqn:E; [|congruence].
+    destruct (ole_oi _ _ _ OL i xo E) as (y' & E' & _). congruence.
+  - intros th i xo' Q Hxo'. destruct (Ht th i Q) as [[Q1 Q2]|[_ Q1]]; [|now apply Q1].
+    destruct (ole_inv _ _ _ _ _ OL Hxo') as (xo & E & (_ & L2 & _)). rewrite Q2, L2.
+    eapply lk_fact_mono; eauto.
+Qed.
+
+Lemma Rk_new s o o1 g i n c y0 th : Rk s o g -> Oinv o -> get i (oi o) = None -> oi o1 = set i y0 (oi o) ->
+  o_idx y0 = o_cnt o -> o_cnt o1 = S (o_cnt o) -> g_pending g = None ->
+  Rk (s <| insts := set i (new_inst n c) (insts s) |>) o1 (g_step o g (th, ENewInst i n)).
+Proof.
+  intros [K1 K2 K3 K4] [_ OI] Hn E1 Hy Hc Hp. constructor; cbn.
+  - intros j yo. rewrite E1, get_set. destruct (N.eqb_spec i j); [subst; auto|].
+    intros H. destruct (K1 j yo H) as [Q|Q]; [congruence|right; exact Q].
+  - intros j Q. injection Q as <-. exists y0. rewrite E1, get_set_same. split; [reflexivity|lia].
+  - intros t j Q. rewrite E1, get_set. destruct (N.eqb i j); [discriminate|eapply K3; eauto].
+  - intros t j xo Q. rewrite E1, get_set. destruct (N.eqb_spec i j).
+    + subst j. exfalso. eapply K3; eauto.
+    + intros Hxo. specialize (K4 t j xo Q Hxo). specialize (OI j xo Hxo).
+      assert (Ho : forall k, older o1 k (o_idx xo) -> older o k (o_idx xo)).
+      { intros k (j' & yo & A & B & C). rewrite E1, get_set in A. destruct (N.eqb i j'); [injection A as <-; lia|].
+        exists j', yo. auto. }
+      change (get_thread (s <| insts := set i (new_inst n c) (insts s) |>) t) with (get_thread s t).
+      destruct (lk (get_thread s t)) as [|k [j'|]|k|k [j'|]|k [j'|]]; cbn in *; auto.
+Qed.
+
+(* ---- well-formed configurations: dependency names are unique per process ---------------------------------------- *)
+Fixpoint nodupN (l : list N) : bool :=
+  match l with [] => true | a :: r => negb (memN a r) && nodupN r end.
+Definition wf_confs (cs : amap pconf) : bool := forallb (fun p => nodupN (map fst (deps (snd p)))) cs.
+
+Lemma dep_cond_unique ds k c c' :
+  nodupN (map fst ds) = true -> In (k, c) ds ->
+  match find (fun p : name * cond => N.eqb (fst p) k) ds with Some p => Some (snd p) | None => None end = Some c' -> c = c'.
+Proof.
+  induction ds as [|[k0 c0] r IH]; cbn; [intros _ []|].
+  intros H Hin. apply andb_true_iff in H. destruct H as [H1 H2]. apply negb_true_iff in H1.
+  destruct (N.eqb_spec k0 k).
+  - subst k0. cbn. intros Q. injection Q as <-. destruct Hin as [Q|Q]; [congruence|].
+    exfalso. assert (memN k (map fst r) = true) by (apply memN_In; change k with (fst (k, c)); now apply in_map). congruence.
+  - destruct Hin as [Q|Q]; [congruence|]. now apply IH.
+Qed.
+
+Lemma g_pending_same o g th e : (forall i n, e <> ENewInst i n) -> (forall i n, e <> ERegAdd i n) ->
+  g_pending (g_step o g (th, e)) = g_pending g.
+Proof.
+  intros N1 N2. unfold g_step. destruct e; cbn; try reflexivity;
+  try (exfalso; eapply N1; reflexivity); try (exfalso; eapply N2; reflexivity).
+  destruct found; [|reflexivity]. destruct (get th (o_th o)); reflexivity.
+Qed.
+
+(* frames give the three relations *)
+Lemma Rk_frame e s s' o o' g g' : Rk s o g -> frM2 s s' -> ole e o o' -> g_pending g' = g_pending g -> Rk s' o' g'.
+Proof.
+  intros K F OL Hp. pose proof K as [K1 K2 K3 K4].
+  eapply Rk_gen; eauto.
+  - intros j. now rewrite Hp.
+  - intros j yo Q _. left. now rewrite Hp.
+  - intros k. unfold registered. now rewrite (f2_running _ _ F), (f2_donereg _ _ F).
+  - intros k. now rewrite (f2_donereg _ _ F).
+  - intros th i. rewrite (f2_thinst _ _ F). intros Q. destruct (f2_lk _ _ F th) as [E|E]; [left; auto|right].
+    specialize (K3 th i Q). destruct (get i (oi o)) as [xo|] eqn:Exo; [|congruence].
+    destruct (ole_oi _ _ _ OL i xo Exo) as (y' & E' & _). split; [congruence|].
+    intros xo' _. now apply lk_plain_fact.
+Qed.
+
+
+
+Section Main.
+Context (cs : amap pconf).
+
+Definition Rest (s : sys) (o : obs) (g : gst) : Prop := Rl s o /\ Rg s o /\ Rk s o g.
+
+Lemma rest_frame e s s' o o' g g' : Rest s o g -> frL o' s s' -> frM s s' -> ole e o o' ->
+  g_pending g' = g_pending g -> Rest s' o' g'.
+Proof.
+  intros (L & G & K) FL FM OL Hp. split; [|split]; [eapply Rl_frame|eapply Rg_frame|eapply Rk_frame]; eauto using frM_frM2.
+Qed.
+
+Lemma rc_oi s o i x : Rc cs s o -> get i (insts s) = Some x ->
+  exists xo, get i (oi o) = Some xo /\ o_nm xo = nm x /\ get (nm x) cs = Some (cf x).
+Proof. intros HR Hx. destruct (rc_inst _ _ _ HR i x Hx) as (xo & A & B & C & _). eauto. Qed.
+
+Lemma rc_on s o n c : Rc cs s o -> get n cs = Some c -> exists r, get n (onm o) = Some r.
+Proof. intros HR Hn. destruct (rc_name _ _ _ HR n c Hn) as (v & r & _ & A & _). eauto. Qed.
+
+(* ---- registry events and Rk ---------------------------------------------------------------------------------- *)
+Lemma Rk_regadd e th s o o' g i n x : Rk s o g -> Rc cs s o -> get i (insts s) = Some x -> nm x = n -> ole e o o' ->
+  Rk (s <| running := set n i (running s) |>) o' (g_step o g (th, ERegAdd i n)).
+Proof.
+  intros K HR Hx Hn OL. eapply Rk_gen; eauto; cbn.
+  - intros j Q. destruct (g_pending g) as [j0|]; [|discriminate Q]. destruct (N.eqb i j0); [discriminate Q|exact Q].
+  - intros j yo Q Hy. rewrite Q. destruct (N.eqb_spec i j); [|now left]. subst j. right. left. cbn.
+    destruct (rc_oi _ _ _ _ HR Hx) as (xo & A & B & _). assert (xo = yo) by congruence. subst xo.
+    rewrite B, Hn, get_set_same. discriminate.
+  - intros k [Q|Q]; [left|right; exact Q]. cbn. rewrite get_set. destruct (N.eqb n k); [discriminate|exact Q].
+Qed.
+
+Lemma Rk_regdel e th s o o' g i x : Rk s o g -> Minv s -> get i (insts s) = Some x -> pc x = IWgDone -> ole e o o' ->
+  Rk (s <| running := del (nm x) (running s) |>) o' (g_step o g (th, ERegDel i)).
+Proof.
+  intros K M Hx Hp OL. eapply Rk_gen; eauto; cbn; try (intros j yo Q _; now left).
+  - intros k [Q|Q]; [|right; exact Q]. destruct (N.eqb_spec (nm x) k).
+    + subst k. right. cbn. eapply (mi_added _ M); eauto. eapply (mi_late _ M); eauto. now rewrite Hp.
+    + left. cbn. now rewrite get_del_other.
+Qed.
+
+Lemma Rk_doneadd e th s o o' g i x : Rk s o g -> get i (insts s) = Some x -> ole e o o' ->
+  Rk (upd_inst i (fun x => x <| d_added := true |>) (s <| donereg := set (nm x) i (donereg s) |>)) o' (g_step o g (th, EDoneAdd i)).
+Proof.
+  intros K Hx OL. eapply Rk_gen; eauto; cbn; try (intros j yo Q _; now left).
+  - intros k [Q|Q]; [left|right]; rewrite ?upd_inst_running, ?upd_inst_donereg; cbn; [exact Q|].
+    rewrite get_set. destruct (N.eqb (nm x) k); [discriminate|exact Q].
+  - intros k Q. rewrite upd_inst_donereg. cbn. rewrite get_set. destruct (N.eqb (nm x) k); [discriminate|exact Q].
+  - intros t j. rewrite upd_inst_thinst, get_thread_upd_inst. cbn. intros Q. left. split; [exact Q|reflexivity].
+Qed.
+
+Lemma Rk_set_thread e th0 ev s o o' g t' th : Rk s o g -> ole e o o' ->
+  g_pending (g_step o g (th0, ev)) = g_pending g ->
+  (forall i xo, get th (thinst s) = Some i -> get i (oi o) = Some xo -> lk_fact s o (o_idx xo) (lk t')) ->
+  Rk (set_thread th t' s) o' (g_step o g (th0, ev)).
+Proof.
+  intros K OL Hp Hl. pose proof K as [K1 K2 K3 K4]. eapply Rk_gen; eauto.
+  - intros j. now rewrite Hp.
+  - intros j yo Q _. left. now rewrite Hp.
+  - intros t j. cbn [thinst set_thread]. change (thinst (set_thread th t' s)) with (thinst s).
+    rewrite get_thread_set_thread. intros Q. destruct (N.eqb_spec th t); [subst t; right|left; auto].
+    specialize (K3 th j Q). destruct (get j (oi o)) as [xo|] eqn:Exo; [|congruence].
+    destruct (ole_oi _ _ _ OL j xo Exo) as (y' & E' & (_ & L2 & _)). split; [congruence|].
+    intros xo' Hxo'. assert (y' = xo') by congruence. subst y'. rewrite L2.
+    eapply (lk_fact_mono e s (set_thread th t' s)); eauto.
+Qed.
+
+Lemma Rk_begin e th0 ev s o o' g th i : Rk s o g -> ole e o o' -> get th (threads s) = None -> get i (oi o) <> None ->
+  g_pending (g_step o g (th0, ev)) = g_pending g ->
+  Rk (s <| thinst := set th i (thinst s) |>) o' (g_step o g (th0, ev)).
+Proof.
+  intros K OL Ht Hi Hp. eapply Rk_gen; eauto.
+  - intros j. now rewrite Hp.
+  - intros j yo Q _. left. now rewrite Hp.
+  - intros t j. cbn. rewrite get_set. destruct (N.eqb_spec th t).
+    + subst t. intros Q. injection Q as <-. right.
+      destruct (get i (oi o)) as [xo|] eqn:Exo; [|congruence].
+      destruct (ole_oi _ _ _ OL i xo Exo) as (y' & E' & _). split; [congruence|].
+      intros xo' _. unfold get_thread. cbn. rewrite Ht. exact I.
+    + intros Q. left. split; [exact Q|reflexivity].
+Qed.
+
+(* ---- helper facts -------------------------------------------------------------------------------------------- *)
+Lemma met_of_latch s o j y yo c : Rc cs s o -> Refreshed o -> Rl s o ->
+  get j (insts s) = Some y -> get j (oi o) = Some yo ->
+  latch_released c y = true -> wait_result s c y = true -> met o c yo = true.
+Proof.
+  intros HR HF L Hy Hyo Hl Hw. destruct (rl_inst _ _ L j y yo Hy Hyo) as (K1 & K2 & K3 & K4 & K5).
+  destruct (rc_oi _ _ _ _ HR Hy) as (xo & A & B & C). assert (xo = yo) by congruence. subst xo.
+  destruct (rc_name _ _ _ HR _ _ C) as (v & r & Ev & Er & Hc & _ & _).
+  assert (Hv : vis_of s (nm y) = v) by (unfold vis_of; now rewrite Ev).
+  assert (Hr : on_get o (o_nm yo) = r) by (unfold on_get; now rewrite B, Er).
+  destruct c; cbn in *.
+  - auto.
+  - apply (HF j yo Hyo (K1 Hl)). rewrite Hr, Hc, <- Hv. exact Hw.
+  - rewrite Hr. eapply (rl_ready _ _ L); eauto. rewrite Hv in Hw. now apply health_eqb_eq.
+  - apply K4. destruct (l_logready y) as [[|]|]; try discriminate; reflexivity.
+  - apply orb_true_iff in Hl. destruct Hl as [Q|Q].
+    + rewrite (K2 Q). reflexivity.
+    + destruct (K3 Q) as [Q1|Q1]; [rewrite Q1; now rewrite orb_true_r|].
+      destruct (o_endst yo); [now rewrite orb_true_r|congruence].
+Qed.
+
+Lemma ended_after_state o th i s0 xo :
+  get i (oi o) = Some xo -> o_endst xo <> None ->
+  match o_endst xo with Some s1 => negb (status_eqb s1 s0) && negb (o_ended xo) | None => false end = false ->
+  forall xo', get i (oi (obs_step cs o (th, EState i s0))) = Some xo' -> o_ended xo' = true.
+Proof.
+  intros Hxo Hne Hf xo' Hxo'. destruct (o_endst xo) as [s1|] eqn:E; [|congruence].
+  apply andb_false_iff in Hf. destruct Hf as [Hf|Hf]; apply negb_false_iff in Hf.
+  - apply status_eqb_eq in Hf. subst s1. destruct (gain_state cs o th i s0 xo Hxo E) as (y' & A & B). congruence.
+  - assert (OL : ole (EState i s0) o (obs_step cs o (th, EState i s0))) by (apply obs_step_ole; intros; discriminate).
+    destruct (ole_oi _ _ _ OL i xo Hxo) as (y' & A & (_ & _ & M1 & _)). assert (y' = xo') by congruence. subst. auto.
+Qed.
+
+Lemma mon_C01_of_gate o th i xo : Oinv o -> get th (o_th o) = Some i -> get i (oi o) = Some xo ->
+  (forall k c, In (k, c) (deps (conf_of cs (o_nm xo))) -> Gate o (o_idx xo) k c) ->
+  mon_C01 cs o (th, ELaunch true) = true.
+Proof.
+  intros [Hnd _] Ht Hx Hg. unfold mon_C01. cbn [fst snd ev_inst]. rewrite Ht. unfold oi_get. rewrite Hx.
+  apply forallb_forall. intros [k c] Hin. cbn [fst snd].
+  destruct (Hg k c Hin) as [G|(j & yo & A & B & C & D)].
+  - destruct (filter _ _) as [|y l] eqn:F; [reflexivity|]. exfalso.
+    assert (Hy : In y (y :: l)) by now left. rewrite <- F in Hy. apply filter_In in Hy. destruct Hy as [Hy1 Hy2].
+    apply andb_true_iff in Hy2. destruct Hy2 as [Q1 Q2]. apply N.eqb_eq in Q1. apply Nat.ltb_lt in Q2.
+    destruct (in_vals_get _ _ Hnd Hy1) as (j & Hj). eapply G; eauto.
+  - assert (Hy : In yo (filter (fun y => N.eqb (o_nm y) k && Nat.ltb (o_idx y) (o_idx xo)) (vals (oi o)))).
+    { apply filter_In. split; [eapply get_in_vals; eauto|]. apply andb_true_iff. split; [now apply N.eqb_eq|now apply Nat.ltb_lt]. }
+    destruct (filter _ _) as [|y l] eqn:F; [reflexivity|]. apply existsb_exists. exists yo. split; [exact Hy|exact D].
+Qed.
+
+Lemma reg_insts_same s th e s' : step_reg s th e = Some s' -> (forall i n, e <> ENewInst i n) ->
+  forall j, match get j (insts s) with
+            | Some x => exists x', get j (insts s') = Some x' /\ cf x' = cf x /\ pc_ok x x'
+            | None => get j (insts s') = None end.
+Proof.
+  intros H Hn. destruct e; try (exfalso; eapply Hn; reflexivity);
+  try (kind_cases H; intros j; cbn; destruct (get j (insts s)); now eauto using pc_ok_refl).
+  destruct (reg_doneadd _ _ _ _ H) as (x & Hx & ->). intros j. rewrite insts_upd_inst.
+  change (insts (s <| donereg := set (nm x) i (donereg s) |>)) with (insts s).
+  destruct (N.eqb_spec i j).
+  - subst j. rewrite Hx. cbn. eexists; repeat split. now left.
+  - destruct (get j (insts s)); eauto using pc_ok_refl.
+Qed.
+
+Definition reg_ev (e : event) : bool := match e with ENewInst _ _ | ERegAdd _ _ => true | _ => false end.
+
+Lemma not_reg_ole o th e g : reg_ev e = false ->
+  ole e o (obs_step cs o (th, e)) /\ g_pending (g_step o g (th, e)) = g_pending g.
+Proof.
+  intros H. split; [apply obs_step_ole|apply g_pending_same]; intros i n ->; discriminate H.
+Qed.
+
+Lemma api_not_reg s th e s' : step_api s th e = Some s' -> reg_ev e = false.
+Proof. intros H. destruct e; try reflexivity; kind_cases H. Qed.
+Lemma stop_not_reg s th e s' : step_stop s th e = Some s' -> reg_ev e = false.
+Proof. intros H. destruct e; try reflexivity; kind_cases H. Qed.
+Lemma shutdown_not_reg s th e s' : step_shutdown s th e = Some s' -> reg_ev e = false.
+Proof. intros H. destruct e; try reflexivity; kind_cases H. Qed.
+Lemma env_not_reg s th e s' : step_env s th e = Some s' -> reg_ev e = false.
+Proof. intros H. destruct e; try reflexivity; kind_cases H. Qed.
+Lemma own_not_reg s th e s' : step_own s th e = Some s' -> reg_ev e = false.
+Proof. intros H. destruct e; try reflexivity; kind_cases H. Qed.
+
+Lemma gbad_parts g : gbad g = false -> g_unreg g = false /\ g_newer g = false /\ g_endov g = false.
+Proof. unfold gbad. destruct (g_unreg g), (g_newer g), (g_endov g); cbn; intros; try discriminate; auto. Qed.
+
+(* the non-own kinds *)
+Lemma core_step_other s o g th e s' :
+  Rc cs s o -> Oinv o -> Minv s -> Rest s o g ->
+  step_core s th e = Some s' -> gbad (g_step o g (th, e)) = false ->
+  (forall H : step_own s th e = Some s', False) ->
+  Rest s' (obs_step cs o (th, e)) (g_step o g (th, e)).
+Proof.
+  intros HR HO M HRest H Hg Hnown. pose proof HRest as (L & G & K).
+  destruct (step_core_kind _ _ _ _ H) as [? ?|i x ? Hx Hth Hthr Hfresh ?|Hk|Hk|Hk|i s0 ? Hk|i s0 b ? Hk|Hk|i ? Hk|Hk|Hk].
+  - (* resume *) subst. destruct (not_reg_ole o th EResume g eq_refl) as [OL Hp].
+    eapply rest_frame; eauto using frL_refl, frM_refl.
+  - (* begin *) subst. destruct (not_reg_ole o th (EBegin i) g eq_refl) as [OL Hp].
+    destruct (rc_oi _ _ _ _ HR Hx) as (xo & Exo & _).
+    split; [|split].
+    + eapply Rl_frame; [exact L|apply frL_eq; reflexivity|exact OL].
+    + eapply Rg_insts; [exact G|exact OL|]. intros j. cbn. destruct (get j (insts s)); eauto using pc_ok_refl.
+    + eapply Rk_begin; eauto. congruence.
+  - (* registry *)
+    destruct e; try (cbn in Hk; discriminate Hk).
+    + (* ENewInst *)
+      destruct (reg_newinst _ _ _ _ _ Hk) as (c & Hc & Hi & ->).
+      pose proof (rc_noinst _ _ _ HR i Hi) as Hoi.
+      destruct (obs_step_new cs o th i n) as (o1 & OL1 & B1 & B2 & B3).
+      assert (Hpn : g_pending g = None).
+      { destruct (gbad_parts _ Hg) as (Q & _ & _). cbn in Q.
+        destruct (g_pending g); [rewrite orb_true_r in Q; discriminate|reflexivity]. }
+      assert (R1 : Rest (s <| insts := set i (new_inst n c) (insts s) |>) o1 (g_step o g (th, ENewInst i n))).
+      { split; [|split].
+        - eapply Rl_new; eauto.
+        - eapply Rg_new; eauto.
+        - eapply Rk_new; eauto. }
+      destruct R1 as (L1 & G1 & K1). split; [|split].
+      * eapply Rl_frame; [exact L1|apply frL_refl|exact OL1].
+      * eapply Rg_frame; [exact G1|apply frM_refl|exact OL1].
+      * eapply Rk_frame; [exact K1|apply frM_frM2, frM_refl|exact OL1|reflexivity].
+    + (* ERegAdd *)
+      assert (OL : ole (ERegAdd i n) o (obs_step cs o (th, ERegAdd i n))) by (apply obs_step_ole; intros; discriminate).
+      split; [|split].
+      * eapply Rl_frame; [exact L|eapply step_reg_frL; [exact Hk|intros; discriminate]|exact OL].
+      * eapply Rg_insts; [exact G|exact OL|eapply reg_insts_same; [exact Hk|intros; discriminate]].
+      * destruct (reg_regadd _ _ _ _ _ Hk) as (x & Hx & Hn & ->). eapply Rk_regadd; eauto.
+    + (* ERegDel *)
+      assert (OL : ole (ERegDel i) o (obs_step cs o (th, ERegDel i))) by (apply obs_step_ole; intros; discriminate).
+      split; [|split].
+      * eapply Rl_frame; [exact L|eapply step_reg_frL; [exact Hk|intros; discriminate]|exact OL].
+      * eapply Rg_insts; [exact G|exact OL|eapply reg_insts_same; [exact Hk|intros; discriminate]].
+      * destruct (reg_regdel _ _ _ _ Hk) as (x & Hx & Hp & ->). eapply Rk_regdel; eauto.
+    + (* ERegGet *)
+      assert (OL : ole (ERegGet n found) o (obs_step cs o (th, ERegGet n found))) by (apply obs_step_ole; intros; discriminate).
+      split; [|split].
+      * eapply Rl_frame; [exact L|eapply step_reg_frL; [exact Hk|intros; discriminate]|exact OL].
+      * eapply Rg_insts; [exact G|exact OL|eapply reg_insts_same; [exact Hk|intros; discriminate]].
+      * destruct (reg_regget _ _ _ _ _ Hk) as (Hf & t' & -> & Hl). eapply Rk_set_thread; eauto.
+        intros i xo Hti Hxo. destruct Hl as [[Hold Hnew]|Hnew]; rewrite Hnew; cbn; [|exact I].
+        destruct found; [exact I|]. intros (j & yo & A & B & C).
+        destruct (rk_reg _ _ _ K j yo A) as [Q|[Q|Q]].
+        -- destruct (rk_pending _ _ _ K j Q) as (yo2 & A2 & B2). assert (yo2 = yo) by congruence. subst yo2.
+           destruct HO as [_ HO2]. specialize (HO2 i xo Hxo). lia.
+        -- rewrite B in Q. congruence.
+        -- now rewrite B in Q.
+    + (* EDoneAdd *)
+      assert (OL : ole (EDoneAdd i) o (obs_step cs o (th, EDoneAdd i))) by (apply obs_step_ole; intros; discriminate).
+      split; [|split].
+      * eapply Rl_frame; [exact L|eapply step_reg_frL; [exact Hk|intros; discriminate]|exact OL].
+      * eapply Rg_insts; [exact G|exact OL|eapply reg_insts_same; [exact Hk|intros; discriminate]].
+      * destruct (reg_doneadd _ _ _ _ Hk) as (x & Hx & ->). eapply Rk_doneadd; eauto.
+    + (* EDoneGet *)
+      assert (OL : ole (EDoneGet n found) o (obs_step cs o (th, EDoneGet n found))) by (apply obs_step_ole; intros; discriminate).
+      split; [|split].
+      * eapply Rl_frame; [exact L|eapply step_reg_frL; [exact Hk|intros; discriminate]|exact OL].
+      * eapply Rg_insts; [exact G|exact OL|eapply reg_insts_same; [exact Hk|intros; discriminate]].
+      * destruct (reg_doneget _ _ _ _ _ Hk) as (Hf & t' & -> & Hl). eapply Rk_set_thread; eauto.
+        intros i xo Hti Hxo. destruct Hl as [[Hold Hnew]|Hnew]; rewrite Hnew; cbn; [|exact I].
+        destruct found; [exact I|]. intros Hol.
+        pose proof (rk_lk _ _ _ K th i xo Hti Hxo) as Q. rewrite Hold in Q. cbn in Q. apply Q in Hol. congruence.
+  - (* api *) destruct (not_reg_ole o th e g (api_not_reg _ _ _ _ Hk)) as [OL Hp].
+    eapply rest_frame; eauto using step_api_frL, step_api_frM.
+  - (* stop *) destruct (not_reg_ole o th e g (stop_not_reg _ _ _ _ Hk)) as [OL Hp].
+    eapply rest_frame; eauto using step_stop_frM.
+    eapply step_stop_frL; [exact Hk|]. intros i ->.
+    assert (exists x, get i (insts s) = Some x) as (x & Hx)
+      by (unfold step_stop in Hk; destruct (get i (insts s)); [eauto|discriminate]).
+    destruct (rc_oi _ _ _ _ HR Hx) as (xo & Exo & _). apply (gain_stopenter cs o th i xo Exo).
+  - (* state *) subst e. destruct (not_reg_ole o th (EState i s0) g eq_refl) as [OL Hp].
+    assert (exists x, get i (insts s) = Some x) as (x & Hx)
+      by (unfold step_state in Hk; destruct (get i (insts s)); [eauto|discriminate]).
+    destruct (rc_oi _ _ _ _ HR Hx) as (xo & Exo & _).
+    assert (Hf : match o_endst xo with Some s1 => negb (status_eqb s1 s0) && negb (o_ended xo) | None => false end = false).
+    { destruct (gbad_parts _ Hg) as (_ & _ & Q). cbn in Q. unfold oi_get in Q. rewrite Exo in Q.
+      apply orb_false_iff in Q. apply Q. }
+    eapply rest_frame; eauto using step_state_frM.
+    eapply step_state_frL; [exact Hk| |].
+    + intros Hs _. destruct (rl_spend _ _ L th i Hs) as (xo2 & A & B). assert (xo2 = xo) by congruence. subst.
+      eapply ended_after_state; eauto.
+    + intros x2 c Hx2 Hp2. assert (x2 = x) by congruence. subst.
+      destruct (rl_inst _ _ L i x xo Hx Exo) as (_ & _ & _ & _ & K5). eapply ended_after_state; eauto.
+  - (* procend *)
+    assert (Hre : reg_ev e = false) by (destruct b; subst; reflexivity).
+    destruct (not_reg_ole o th e g Hre) as [OL Hp].
+    assert (exists x, get i (insts s) = Some x) as (x & Hx)
+      by (unfold step_procend in Hk; destruct (get i (insts s)); [eauto|discriminate]).
+    destruct (rc_oi _ _ _ _ HR Hx) as (xo & Exo & _).
+    eapply rest_frame; eauto using step_procend_frM.
+    eapply step_procend_frL; [exact Hk|]. intros ->. subst e.
+    destruct (gain_procend cs o th i s0 xo Exo) as (y' & A & B). exists y'. split; [exact A|congruence].
+  - (* shutdown *) destruct (not_reg_ole o th e g (shutdown_not_reg _ _ _ _ Hk)) as [OL Hp].
+    eapply rest_frame; eauto using step_shutdown_frL, step_shutdown_frM.
+  - (* ordered *) subst. destruct (not_reg_ole o th (EOrderedGo i) g eq_refl) as [OL Hp].
+    eapply rest_frame; eauto using step_ordered_frL, step_ordered_frM.
+  - (* env *) destruct (not_reg_ole o th e g (env_not_reg _ _ _ _ Hk)) as [OL Hp].
+    eapply rest_frame; eauto using step_env_frM.
+    eapply step_env_frL; [exact Hk| | |].
+    + intros i xo' -> Hxo'.
+      assert (exists x, get i (insts s) = Some x) as (x & Hx)
+        by (unfold step_env in Hk; destruct (get i (insts s)); [eauto|discriminate]).
+      destruct (rc_oi _ _ _ _ HR Hx) as (xo & Exo & B & C). destruct (rc_on _ _ _ _ HR C) as (r & Er).
+      rewrite <- B in Er. destruct (gain_logready cs o th i xo r Exo Er) as [(y' & A1 & A2) _]. congruence.
+    + intros i x r' -> Hx Hr'.
+      destruct (rc_oi _ _ _ _ HR Hx) as (xo & Exo & B & C). destruct (rc_on _ _ _ _ HR C) as (r & Er).
+      rewrite <- B in Er. destruct (gain_logready cs o th i xo r Exo Er) as [_ (r2 & A1 & A2)]. rewrite B in A1. congruence.
+    + intros i x r' -> Hx Hr'.
+      destruct (rc_oi _ _ _ _ HR Hx) as (xo & Exo & B & C). destruct (rc_on _ _ _ _ HR C) as (r & Er).
+      rewrite <- B in Er. destruct (gain_probe cs o th i xo r Exo Er) as (r2 & A1 & A2). rewrite B in A1. congruence.
+  - exfalso. eauto.
 Qed.
